@@ -32,7 +32,7 @@ TENANT_VARIANTS = [
     {"zoo": "Z1"}, {"zoo": "Z2"}, {"zoo": "Z3"}, {"zoo": "Z3", "right": True}, {"zoo": "Z4"}, {"zoo": "Z5"},
     {"zoo": "Z6"}, {"zoo": "Z6", "relief": True}, {"zoo": "Z6", "exact": True}, {"zoo": "Z7"}, {"zoo": "Z7", "exact": True},
     {"zoo": "Z8"}, {"zoo": "Z8", "wave": True, "relief": True}, {"zoo": "Z8", "exact": True}, {"zoo": "Z5", "sym": False},
-    {"zoo": "Z9"}, {"zoo": "Z10"}, {"zoo": "Z11", "compressible": True}, {"zoo": "Z11", "ground": True},
+    {"zoo": "Z9"}, {"zoo": "Z10"}, {"zoo": "Z10", "no_reserve": True}, {"zoo": "Z11", "compressible": True}, {"zoo": "Z11", "ground": True},
     {"zoo": "Z12", "wingbox": False}, {"zoo": "Z13"}, {"zoo": "Z14"}, {"zoo": "Z15"}, {"zoo": "Z3", "tail": True},
     {"zoo": "Z5", "user_meshes": True}, {"zoo": "Z13", "compressible": True}, {"zoo": "Z13", "user_sref": True},
     {"zoo": "Z8", "pm": True}, {"zoo": "Z9", "rotational": True}, {"zoo": "Z1", "user_sref": True},
